@@ -19,7 +19,9 @@ META = {
     "the tables), hence every successful submission returns the reference outputs — asynchronous loop with any fault-free "
     "schedule and any max_concurrent (C17_async), synchronous debug loop (C17_sync) — and any two successful runs agree "
     "(C17_determinism).  The synchronous loop always ends: with max_concurrent != 0 it performs at most 2*(jobs) + 2*(nodes) + 3 "
-    "iterations, jobs = number of jobs of the reference solution (sync_log_bound, C17_sync_terminates), so the fuel of the model's runSync is no caveat.  Job lists may be empty (a split over an empty list, literal or produced upstream at run time): the "
+    "iterations, jobs = number of jobs of the reference solution (sync_log_bound, C17_sync_terminates), so the fuel of the model's runSync is no caveat.  With rerun=True under the debug worker without a limit a successful "
+    "submission returns the reference outputs of THIS submission's body values whatever the cache held before "
+    "(C17_rerun_sync_unlimited); with a limit or an asynchronous worker old and new values can mix (finding D71, C15).  Job lists may be empty (a split over an empty list, literal or produced upstream at run time): the "
     "theorems rest on 'every node is done', and C17_empty_split_regression / C17_while_tasks_witness show by computation that both "
     "loops go on after a zero-job node while a loop that only looks at runnable tasks stops early with different outputs.  Tied "
     "to the code by running generated workflows (splits, inherited splits, duplicate checksums, diamonds, EMPTY splits given "
@@ -37,7 +39,8 @@ _NS = "PydraModel.Sched."
 OBLIGATIONS = [
     _NS + n
     for n in ("jobs_are_reference", "C17_async", "C17_sync", "C17_determinism", "refDyn_ok", "refEmpty_ok",
-              "C17_empty_split_regression", "C17_while_tasks_witness", "sync_log_bound", "C17_sync_terminates")
+              "C17_empty_split_regression", "C17_while_tasks_witness", "sync_log_bound", "C17_sync_terminates",
+              "C17_rerun_sync_unlimited")
 ]
 LEAN_TARGETS = ["PydraModel.Props.C17"]
 MODEL_TARGETS = ["PydraModel.Sched.Model", "PydraModel.DriverUtil"]
